@@ -27,8 +27,12 @@ build() {
   mkdir -p bin work
   if [ "$REPO" != "/repo" ]; then
     # testing against a scratch worktree: same module file, other replace target
-    alt=work/alt$(echo "$REPO" | tr '/' '_')
-    sed "s#=> /repo#=> $REPO#" go.mod > $alt.mod; cp go.sum $alt.sum
+    # one module file per (worktree, check): several checks may be built against
+    # the same worktree side by side; written under a temporary name and moved
+    # into place so that no build reads a half-written file
+    alt=work/alt$(echo "$REPO" | tr '/' '_')${VERIF_ONLY:+_$VERIF_ONLY}
+    sed "s#=> /repo#=> $REPO#" go.mod > $alt.mod.tmp.$$ && mv -f $alt.mod.tmp.$$ $alt.mod
+    cp go.sum $alt.sum.tmp.$$ && mv -f $alt.sum.tmp.$$ $alt.sum
     MODFLAG="-modfile=$alt.mod"
   fi
   go build $MODFLAG -tags "$TAGS" -o $BIN.tmp.$$ ./cmd/vcheck && mv -f $BIN.tmp.$$ $BIN || { echo "BUILD-FAILED: vcheck does not build against $REPO" >&2; exit 3; }
